@@ -105,7 +105,7 @@ def rebase (ex : List HashRange) (range : Option HashRange) : Option (List HashR
 /-- the data-hash arm of `verify_hash_binding`: re-base when an update manifest is active,
 then verify. Reply: the status code logged (`match` / `mismatch`), `extra` = the informational
 `additionalExclusionsPresent` code, or a panic. -/
-inductive Verdict | matched (extra : Bool) | mismatched (extra : Bool) | fatal | panic
+inductive Verdict | matched (extra : Bool) | mismatched (extra : Bool) | malformed | fatal | panic
   deriving DecidableEq, Repr
 
 def bindData (dh : DataHash) (claimAlg : Option String) (update : Bool) (range : Option HashRange)
@@ -242,6 +242,67 @@ def verifyBmff (pre : List UInt8) (alg : String) (resolved : Option (List HashRa
   | none => .err .handler
   | some ex => compareHash pre (hashModel alg data (some ex) true buf none)
 
+/-! ### the box-hash and BMFF arms of `Claim::verify_hash_binding`; status codes -/
+
+/-- how every arm maps the verifier's result: `Ok` -> success entry, a fatal error
+(`is_fatal_hash_binding_error`: cancellation, non-EOF I/O) is returned, everything else is logged
+as the arm's mismatch failure -/
+def verdictOf (r : VRes) (extra : Bool) : Verdict :=
+  match r with
+  | .ok => .matched extra
+  | .err (.hash .io) => .fatal
+  | .err (.hash .cancelled) => .fatal
+  | .err .panic => .panic
+  | .err _ => .mismatched extra
+
+/-- box-hash arm: `hasHandler = false` models `get_assetio_handler(..)` / `asset_box_hash_ref()`
+returning `None` — both are propagated with `?` (the validation call fails; nothing is logged) -/
+def bindBox (hasHandler : Bool) (boxes : List BoxEntry) (claimAlg : Option String)
+    (src : Option (List SrcBox)) (data : List UInt8) (buf : Nat) : Verdict :=
+  if !hasHandler then .fatal else verdictOf (verifyBox boxes claimAlg src data buf) false
+
+/-- result of `BmffHash::verify_self` -/
+inductive BmffSelf | ok | remote | malformed
+  deriving DecidableEq, Repr
+
+/-- BMFF arm (file-level hash, no Merkle maps): `verify_self()?` first; the error
+`C2PAValidation(assertion.bmffHash.malformed)` is logged with that code, every other non-fatal
+error with `assertion.bmffHash.mismatch` -/
+def bindBmff (self : BmffSelf) (pre : List UInt8) (alg : String) (resolved : Option (List HashRange))
+    (data : List UInt8) (buf : Nat) : Verdict :=
+  match self with
+  | .remote => .mismatched false
+  | .malformed => .malformed
+  | .ok => verdictOf (verifyBmff pre alg resolved data buf) false
+
+/-- the hard-binding kinds (`dataHash`, `boxesHash`, `bmffHash` in the status codes) -/
+inductive Kind | data | box | bmff
+  deriving DecidableEq, Repr
+
+def Kind.str : Kind → String
+  | .data => "dataHash" | .box => "boxesHash" | .bmff => "bmffHash"
+
+/-- the validation status code the arm logs for a verdict, and whether it is a failure entry;
+`none`: nothing is logged (the call returns an error / aborts) -/
+def Verdict.logged (k : Kind) : Verdict → Option (String × Bool)
+  | .matched _ =>
+    some (match k with
+      | .data => "assertion.dataHash.match"
+      | .box => "assertion.boxesHash.match"
+      | .bmff => "assertion.bmffHash.match", false)
+  | .mismatched _ =>
+    some (match k with
+      | .data => "assertion.dataHash.mismatch"
+      | .box => "assertion.boxesHash.mismatch"
+      | .bmff => "assertion.bmffHash.mismatch", true)
+  | .malformed =>
+    some (match k with
+      | .data => "assertion.dataHash.malformed"
+      | .box => "assertion.boxesHash.malformed"
+      | .bmff => "assertion.bmffHash.malformed", true)
+  | .fatal => none
+  | .panic => none
+
 /-! ### line protocol -/
 
 def VErr.str : VErr → String
@@ -257,8 +318,16 @@ def VRes.str : VRes → String
 def Verdict.str : Verdict → String
   | .matched x => "match" ++ (if x then "+extra" else "")
   | .mismatched x => "mismatch" ++ (if x then "+extra" else "")
+  | .malformed => "malformed"
   | .fatal => "fatal"
   | .panic => "panic"
+
+/-- reply of the verdict-level ops: the verdict and the logged entry
+(`<verdict>/<code>/<success|failure>`, or the bare verdict when nothing is logged) -/
+def Verdict.reply (k : Kind) (v : Verdict) : String :=
+  match v.logged k with
+  | some (c, f) => v.str ++ "/" ++ c ++ "/" ++ (if f then "failure" else "success")
+  | none => v.str
 
 def optStr (s : String) : Option String := if s == "-" then none else some s
 
@@ -316,6 +385,32 @@ def getData (toks : List String) : Option (List UInt8) :=
     | none => some d
     | some m => applyMut d m
 
+/-- the fields of a box-hash request -/
+def parseBh (rest : List String) :
+    Option (List UInt8 × Option (List SrcBox) × List BoxEntry × Nat) :=
+  let srcS := field rest "src"
+  let src : Option (Option (List SrcBox)) :=
+    if srcS == "err" then some none
+    else ((splitList (if srcS == "-" then "" else srcS) ";").mapM parseSrc).map some
+  match getData rest, src,
+      (splitList (if field rest "boxes" == "-" then "" else field rest "boxes") ";").mapM parseEntry,
+      (field rest "buf").toNat? with
+  | some data, some src, some boxes, some buf => if buf = 0 then none else some (data, src, boxes, buf)
+  | _, _, _, _ => none
+
+/-- the fields of a BMFF request -/
+def parseBmff (rest : List String) :
+    Option (List UInt8 × Option (List HashRange) × List UInt8 × Nat) :=
+  let exS := field rest "excl"
+  let ex : Option (Option (List HashRange)) :=
+    if exS == "err" then some none
+    else match C13.parseRanges exS with
+      | some (some l) => some (some l)
+      | _ => none
+  match getData rest, ex, fromHex? (field rest "pre"), (field rest "buf").toNat? with
+  | some data, some ex, some pre, some buf => if buf = 0 then none else some (data, ex, pre, buf)
+  | _, _, _, _ => none
+
 def handle (toks : List String) : String :=
   match toks with
   | "dh" :: rest =>
@@ -331,31 +426,32 @@ def handle (toks : List String) : String :=
         | none => "bad-request"
         | some range =>
           (bindData ⟨field rest "url" == "1", optStr (field rest "alg"), excl, pre⟩
-            (optStr (field rest "calg")) (field rest "upd" == "1") range data buf).str
+            (optStr (field rest "calg")) (field rest "upd" == "1") range data buf).reply .data
     | _, _, _, _ => "bad-request"
   | "bh" :: rest =>
-    let srcS := field rest "src"
-    let src : Option (Option (List SrcBox)) :=
-      if srcS == "err" then some none
-      else ((splitList (if srcS == "-" then "" else srcS) ";").mapM parseSrc).map some
-    match getData rest, src,
-        (splitList (if field rest "boxes" == "-" then "" else field rest "boxes") ";").mapM parseEntry,
-        (field rest "buf").toNat? with
-    | some data, some src, some boxes, some buf =>
-      if buf = 0 then "bad-request"
-      else (verifyBox boxes (optStr (field rest "calg")) src data buf).str
-    | _, _, _, _ => "bad-request"
+    match parseBh rest with
+    | some (data, src, boxes, buf) => (verifyBox boxes (optStr (field rest "calg")) src data buf).str
+    | none => "bad-request"
+  -- the box-hash arm of `verify_hash_binding` (`handler=0`: the format has no box-hash support)
+  | "bhv" :: rest =>
+    match parseBh rest with
+    | some (data, src, boxes, buf) =>
+      (bindBox (field rest "handler" != "0") boxes (optStr (field rest "calg")) src data buf).reply .box
+    | none => "bad-request"
   | "bmff" :: rest =>
-    let exS := field rest "excl"
-    let ex : Option (Option (List HashRange)) :=
-      if exS == "err" then some none
-      else match C13.parseRanges exS with
-        | some (some l) => some (some l)
-        | _ => none
-    match getData rest, ex, fromHex? (field rest "pre"), (field rest "buf").toNat? with
-    | some data, some ex, some pre, some buf =>
-      if buf = 0 then "bad-request" else (verifyBmff pre (field rest "alg") ex data buf).str
-    | _, _, _, _ => "bad-request"
+    match parseBmff rest with
+    | some (data, ex, pre, buf) => (verifyBmff pre (field rest "alg") ex data buf).str
+    | none => "bad-request"
+  -- the BMFF arm of `verify_hash_binding` (`self` = result of `verify_self`)
+  | "bmffv" :: rest =>
+    match parseBmff rest with
+    | some (data, ex, pre, buf) =>
+      let self := match field rest "self" with
+        | "remote" => BmffSelf.remote
+        | "malformed" => BmffSelf.malformed
+        | _ => BmffSelf.ok
+      (bindBmff self pre (field rest "alg") ex data buf).reply .bmff
+    | none => "bad-request"
   -- a case that only carries a property-oracle failure of the implementation (no model content)
   | "oracle" :: _ => "oracle-only"
   | _ => "bad-op"
